@@ -179,6 +179,16 @@ void sweep_calibrate (int (*size_of) (const unsigned char *, size_t)) {
   free (t.b);
 }
 
+int sweep_calibration_export (int *v, int max) {
+  int n = 0;
+  for (int k = 0; k < 5 && n + 3 <= max; k++) { v[n++] = cs_base[k]; v[n++] = cs_sz[k]; v[n++] = cs_pz[k]; }
+  return n;
+}
+void sweep_calibration_import (const int *v, int n) {
+  for (int k = 0; k < 5 && 3 * k + 2 < n; k++) { cs_base[k] = v[3 * k]; cs_sz[k] = v[3 * k + 1]; cs_pz[k] = v[3 * k + 2]; }
+  cs_calibrated = 1;
+}
+
 /* ------------------------------------------------------------------ generators */
 static void decl_list (sb_t *o, const char *pfx, int lvl, int from, int n, int as_args) {
   for (int i = from; i < from + n; i++) sb_printf (o, "%sint %s%d_%d", (i > from) ? ", " : "", pfx, lvl, i);
